@@ -158,7 +158,9 @@ func (f *Fam) genBegin(r *rand.Rand, s *Snapshot) string {
 	if int(h) < len(f.tmHist) {
 		cur = f.tmHist[h]
 	}
-	if l := sortedAddrs(cur); len(l) > 0 && r.Intn(20) != 0 {
+	if r.Intn(30) == 0 {
+		prop = "" // a header without a proposer address
+	} else if l := sortedAddrs(cur); len(l) > 0 && r.Intn(20) != 0 {
 		prop = l[r.Intn(len(l))]
 	} else {
 		prop = hx(Keys[r.Intn(NKeys)].Addr)
@@ -267,6 +269,9 @@ func (f *Fam) genTx(r *rand.Rand, s *Snapshot) string {
 			// the transaction of a multisignature account again, its component signatures exchanged or the first one
 			// repeated: the very signatures that verified before, now under the wrong components
 			old = strings.Replace(old, "mut=none", []string{"mut=msswap", "mut=msdup"}[r.Intn(2)], 1)
+		} else if strings.Contains(old, "mut=none") && m != "simulate" && r.Intn(4) == 0 {
+			// a transaction seen before, its signature lengthened by a byte: other bytes, another hash, the same signer
+			old = strings.Replace(old, "mut=none", "mut=siglong", 1)
 		}
 		return "tx " + m + " " + old
 	}
@@ -519,7 +524,7 @@ func (f *Fam) genTx1(r *rand.Rand, s *Snapshot) string {
 	}
 	mut := "none"
 	if r.Intn(16) == 0 {
-		mut = []string{"sig", "fee", "memo", "ent", "emptysig", "trunc", "garbage", "msswap", "msdrop", "memosp", "memopre", "msg", "chain", "nilint", "msdup"}[r.Intn(15)]
+		mut = []string{"sig", "fee", "memo", "ent", "emptysig", "trunc", "garbage", "msswap", "msdrop", "memosp", "memopre", "msg", "chain", "nilint", "msdup", "siglong", "siglong"}[r.Intn(17)]
 	}
 	// a signed field of the message changed after signing: every field of every message type in turn, and more often
 	// for the governance messages, whose senders are mostly the accounts that may issue them
@@ -599,6 +604,11 @@ func (f *Fam) Gen(r *rand.Rand, i int) string {
 			return "end"
 		}
 		f.gen.txsLeft--
+		if r.Intn(20) == 0 || (f.gen.afterParamChange && r.Intn(2) == 0) {
+			f.gen.afterParamChange = false
+			return "mon.query" // queries arrive while a block is being executed, too - also right after a parameter change
+		}
+		f.gen.afterParamChange = false
 		if r.Intn(12) == 0 {
 			a := hx(Keys[r.Intn(NKeys)].Addr)
 			if r.Intn(60) == 0 {
@@ -614,23 +624,39 @@ func (f *Fam) Gen(r *rand.Rand, i int) string {
 			sort.Strings(l)
 			return fmt.Sprintf("burn %s %d", l[r.Intn(len(l))], pick(r, 10000000000000000, 500000000000000000, 1000000000000000000, 1500000000000000000, 600000000000000000, 1, 0))
 		}
-		return f.genTx(r, s)
+		line := f.genTx(r, s)
+		f.gen.afterParamChange = strings.HasPrefix(line, "tx deliver k=changeparam")
+		if f.gen.afterParamChange && f.gen.txsLeft == 0 {
+			f.gen.txsLeft = 1 // room for the query
+		}
+		return line
 	case 4:
 		f.gen.phase = 1
 		f.gen.blocks++
 		if r.Intn(12) == 0 {
 			f.gen.phase = 6 // between two blocks: store queries through the ABCI interface
-		} else if strings.HasPrefix(f.Profile, "replica") {
+		} else {
 			// between two blocks: export the state and restart two fresh instances from it - mostly when the import
 			// will accept the export (genesis validation refuses unstaked records, jailed staked validators and
 			// stakes below the default minimum) and more than one validator has a previous-state power
 			importable := len(s.Prev) >= 2
+			jailedUnstaking := false // the one kind of jailed validator an import accepts
 			for _, v := range s.Vals {
 				if v.Status == 0 || (v.Jailed && v.Status == 2) || v.Tokens.LT(sdk.NewInt(1000000)) {
 					importable = false
 				}
+				if v.Jailed && v.Status == 1 {
+					jailedUnstaking = true
+				}
 			}
-			if (importable && r.Intn(3) == 0) || r.Intn(40) == 0 {
+			if importable && jailedUnstaking && r.Intn(2) == 0 {
+				f.gen.phase = 5
+			}
+			often := 3
+			if !strings.HasPrefix(f.Profile, "replica") {
+				often = 8 // the other profiles export too, less often
+			}
+			if (importable && r.Intn(often) == 0) || r.Intn(40*often/3) == 0 {
 				f.gen.phase = 5
 			}
 		}
